@@ -1160,6 +1160,42 @@ fn main() {
                     }
                 }
             }
+            // bounded-exhaustive: every vector of 1..3 limbs over the boundary alphabet, as both operands of the
+            // multi-limb operations (carry chains that random limbs practically never produce)
+            let alpha: [u64; 6] = [0, 1, 2, u64::MAX, u64::MAX - 1, 1 << 63];
+            let mut vecs: Vec<Vec<u64>> = Vec::new();
+            for a in alpha {
+                vecs.push(vec![a]);
+                for b in alpha {
+                    vecs.push(vec![a, b]);
+                    for c in alpha {
+                        vecs.push(vec![a, b, c]);
+                    }
+                }
+            }
+            let norm: Vec<&Vec<u64>> = vecs.iter().filter(|v| *v.last().unwrap() != 0).collect();
+            let mut k = 0u64;
+            for x in &norm {
+                for y in &norm {
+                    k += 1;
+                    if k % shard.1 != shard.0 {
+                        continue;
+                    }
+                    run_op(&mut ctx, &Op::LongMul((*x).clone(), (*y).clone()));
+                    run_op(&mut ctx, &Op::LargeAdd((*x).clone(), (*y).clone()));
+                    if k % 7 == 0 {
+                        run_op(&mut ctx, &Op::LargeMul((*x).clone(), (*y).clone()));
+                        run_op(&mut ctx, &Op::LargeAddFrom((*x).clone(), (*y).clone(), (k % x.len() as u64) as usize));
+                        run_op(&mut ctx, &Op::Compare((*x).clone(), (*y).clone()));
+                    }
+                    ctx.rep.count("sweep.boundary_limb_pairs");
+                }
+                for a in alpha {
+                    run_op(&mut ctx, &Op::SmallMul((*x).clone(), a));
+                    run_op(&mut ctx, &Op::SmallAdd((*x).clone(), a));
+                }
+                run_op(&mut ctx, &Op::Hi64((*x).clone()));
+            }
             for n in 0..=130usize {
                 if n as u64 % shard.1 == shard.0 {
                     run_op(&mut ctx, &Op::Shl(vec![u64::MAX, 1], n));
